@@ -6,7 +6,8 @@ reg = kani_impl.load_registry()
 names = sys.argv[1:]
 sel = [h for h in reg if (not names or h['name'] in names)]
 t0=time.time()
-r = kani_impl.run_harnesses(sel, jobs=12, timeout=7200)
+r = kani_impl.run_harnesses(sel, jobs=int(__import__('os').environ.get('J','8')), timeout=7200)
+open('/verif/.cache/kani_raw.log','w').write(r['out'])
 per = kani_impl.parse(r['out'], sel)
 for h in sel:
     p = per.get(kani_impl.full_name(h))
